@@ -790,7 +790,7 @@ class Interp:
                 ta, tb = as_real_term(a), as_real_term(b)
                 if self.ex.branch(tb == 0):
                     self.raise_exc('ZeroDivisionError', 'float modulo', node)
-                q = z3.ToReal(z3.ToInt(ta / tb))      # floor for reals
+                q = z3.ToReal(sym.floor_int(self.ex, ta / tb))      # floor for reals
                 return mk_float(q if op == 'floordiv' else ta - tb * q)
             ta, tb = as_int_term(a), as_int_term(b)
             if self.ex.branch(tb == 0):
